@@ -198,6 +198,22 @@ Proof.
   destruct Hin as [b [d0 [_ [_ Hin]]]]. apply (H _ Hin).
 Qed.
 
+(* what the C01 instantiation needs of a forward/backward pair:
+   n = element count of y / gy, m = element count of x / gx *)
+Definition adjoint_pair (fw : mov) (bw : acc) (n m : nat) : Prop :=
+  Permutation bw (transpose fw) /\ covers fw n /\ acc_in_bounds bw m n.
+
+Lemma adjoint_pair_literal fw n m :
+  sequential fw n -> single fw -> mov_in_bounds fw [m] -> adjoint_pair fw (transpose fw) n m.
+Proof.
+  intros Hs Hk Hb. split; [apply Permutation_refl|]. split; [apply sequential_covers; exact Hs|].
+  apply transpose_in_bounds; [|exact Hk|exact Hb]. intros e He. apply (sequential_lt _ _ _ Hs He).
+Qed.
+
+Ltac mov_forall spec :=
+  apply Forall_forall; intros [?d [?k ?s]] Hin; cbn [fst snd]; apply spec in Hin.
+
+
 (* ================================================================== adjointness *)
 Section GatherAdjoint.
   Variable T : Type.
@@ -307,22 +323,88 @@ Section GatherAdjoint.
     f_equal. apply (gather_adjoint fw bw n gy dx Hp Hc Hn).
   Qed.
 
+
+  Corollary adjoint_pair_scatter fw bw n m gy gx dx :
+    adjoint_pair fw bw n m -> length gx = m -> length gy = n -> length dx = m ->
+    dotT (scatter T zero add bw gy gx) dx = add (dotT gx dx) (dotT gy (gather fw n dx)).
+  Proof.
+    intros [Hp [Hc Hb]] Hgx Hgy Hdx. apply transpose_adjoint; try assumption.
+    - rewrite Hgx, Hgy. exact Hb.
+    - congruence.
+  Qed.
+
+  (* `gather` is the output of the forward interpreter `assign` of Index.v started on an
+     all-uninitialised output: every cell ends up written (Some), with the looked-up value *)
+  Lemma nth_set {A} (y : list A) : forall d0 d v dflt, d0 < length y ->
+    nth d (firstn d0 y ++ v :: skipn (S d0) y) dflt = if d0 =? d then v else nth d y dflt.
+  Proof.
+    induction y as [|a y IH]; intros d0 d v dflt H; cbn [length] in H; [lia|].
+    destruct d0 as [|d0], d as [|d]; cbn [firstn skipn app nth Nat.eqb]; try reflexivity.
+    apply IH. lia.
+  Qed.
+
+  Lemma set_length {A} (y : list A) d0 v : d0 < length y ->
+    length (firstn d0 y ++ v :: skipn (S d0) y) = length y.
+  Proof. intro H. rewrite app_length, firstn_length. cbn [length]. rewrite skipn_length. lia. Qed.
+
+  Lemma assign_length fw xs : forall y, (forall e, In e fw -> fst e < length y) ->
+    length (assign T zero fw xs y) = length y.
+  Proof.
+    induction fw as [|[d0 [k s]] fw IH]; intros y Hb; [reflexivity|]. cbn [assign].
+    assert (Hd0 : d0 < length y) by (apply (Hb (d0, (k, s))); left; reflexivity).
+    rewrite IH; rewrite set_length by exact Hd0; [reflexivity|].
+    intros e He. apply Hb. right. exact He.
+  Qed.
+
+  Lemma assign_nth fw xs : forall (y : list (option T)) d,
+    NoDup (map fst fw) -> (forall e, In e fw -> fst e < length y) -> d < length y ->
+    nth d (assign T zero fw xs y) None =
+    match find (fun e => fst e =? d) fw with
+    | Some e => Some (nth (snd (snd e)) (nth (fst (snd e)) xs []) zero)
+    | None => nth d y None
+    end.
+  Proof.
+    induction fw as [|[d0 [k s]] fw IH]; intros y d Hn Hb Hd; [reflexivity|].
+    cbn [assign find fst snd]. cbn [map fst] in Hn. inversion Hn as [|? ? Hna Hn']; subst.
+    assert (Hd0 : d0 < length y) by (apply (Hb (d0, (k, s))); left; reflexivity).
+    rewrite IH; [|exact Hn'|intros e He; rewrite set_length by exact Hd0; apply Hb; right; exact He
+                 |rewrite set_length by exact Hd0; exact Hd].
+    rewrite nth_set by exact Hd0. destruct (Nat.eqb_spec d0 d) as [E|E].
+    - subst d0. destruct (find (fun e => fst e =? d) fw) as [e|] eqn:F; [|reflexivity].
+      apply find_some in F. destruct F as [Hin Ee]. apply Nat.eqb_eq in Ee. exfalso. apply Hna.
+      rewrite <- Ee. apply in_map. exact Hin.
+    - reflexivity.
+  Qed.
+
+  Lemma nth_gather fw n dx d : d < n ->
+    nth d (map Some (gather fw n dx)) None = Some (lookup fw dx d).
+  Proof.
+    intro Hd. unfold gather.
+    rewrite (nth_indep (map Some (map (lookup fw dx) (seq 0 n))) None (Some (lookup fw dx 0)))
+      by (rewrite !map_length, seq_length; exact Hd).
+    rewrite (map_nth Some), (map_nth (lookup fw dx)), seq_nth by exact Hd. reflexivity.
+  Qed.
+
+  Theorem gather_assign fw n dx : covers fw n -> single fw ->
+    assign T zero fw [dx] (repeat None n) = map Some (gather fw n dx).
+  Proof.
+    intros Hc Hs.
+    assert (Hb : forall e, In e fw -> fst e < length (repeat (@None T) n)).
+    { intros e He. rewrite repeat_length. apply (covers_lt _ _ _ Hc He). }
+    apply (nth_ext _ _ None None).
+    - rewrite assign_length by exact Hb. unfold gather. rewrite repeat_length, !map_length, seq_length. reflexivity.
+    - intros d Hd. rewrite assign_length in Hd by exact Hb. rewrite repeat_length in Hd.
+      rewrite assign_nth; [|apply (covers_NoDup _ _ Hc)|exact Hb|rewrite repeat_length; exact Hd].
+      rewrite (nth_gather fw n dx d Hd). unfold lookup.
+      destruct (find (fun e => fst e =? d) fw) as [e|] eqn:F.
+      + apply find_some in F. destruct F as [Hin _].
+        pose proof (proj1 (Forall_forall _ _) Hs _ Hin) as Hk. cbn beta in Hk. rewrite Hk. reflexivity.
+      + exfalso. assert (Hin : In d (map fst fw)).
+        { apply (Permutation_in _ (Permutation_sym Hc)). apply in_seq. lia. }
+        apply in_map_iff in Hin. destruct Hin as [e [Ee Hin]].
+        pose proof (find_none _ _ F _ Hin) as Hf. cbn beta in Hf. rewrite Ee, Nat.eqb_refl in Hf. discriminate.
+  Qed.
 End GatherAdjoint.
-
-(* what the C01 instantiation needs of a forward/backward pair:
-   n = element count of y / gy, m = element count of x / gx *)
-Definition adjoint_pair (fw : mov) (bw : acc) (n m : nat) : Prop :=
-  Permutation bw (transpose fw) /\ covers fw n /\ acc_in_bounds bw m n.
-
-Lemma adjoint_pair_literal fw n m :
-  sequential fw n -> single fw -> mov_in_bounds fw [m] -> adjoint_pair fw (transpose fw) n m.
-Proof.
-  intros Hs Hk Hb. split; [apply Permutation_refl|]. split; [apply sequential_covers; exact Hs|].
-  apply transpose_in_bounds; [|exact Hk|exact Hb]. intros e He. apply (sequential_lt _ _ _ Hs He).
-Qed.
-
-Ltac mov_forall spec :=
-  apply Forall_forall; intros [?d [?k ?s]] Hin; cbn [fst snd]; apply spec in Hin.
 
 (* ================================================================== identity_pairs
    copy_tensor / reshape / flatten forward: y[i] = x[i] *)
@@ -862,3 +944,295 @@ Section InplaceAdd.
     Qed.
   End Fold.
 End InplaceAdd.
+
+(* ================================================================== broadcast_fw
+   shape_ops::broadcast: x[dim] = 1, size > 0, y = x.resize_dim(dim, size).
+   Rt = product of the axes above dim times the batch (as R in Section Slice). *)
+Section Broadcast.
+  Variables (sx sy : tshape) (dim size base Rt : nat).
+  Hypothesis Hbase : tlower sy dim = base.
+  Hypothesis Hsx : tsize sx = base * 1 * Rt.
+  Hypothesis Hsy : tsize sy = base * size * Rt.
+  Hypothesis Hb0 : 0 < base.
+  Hypothesis Hs0 : 0 < size.
+
+  (* y[low, j, high] = x[low, 0, high] for every j < size *)
+  Theorem broadcast_fw_spec d k s :
+    In (d, (k, s)) (broadcast_fw sx sy dim size) <->
+    exists low j high, low < base /\ j < size /\ high < Rt /\ k = 0 /\
+      d = flat base size low j high /\ s = flat base 1 low 0 high.
+  Proof.
+    unfold broadcast_fw. rewrite Hbase, Hsx, In_flat_map2. split.
+    - intros [i [Hi H]]. apply In_map_range in H. destruct H as [j [Hj E]]. injection E as Ed Ek Es. subst d k s.
+      replace (base * 1 * Rt) with (base * Rt) in Hi by lia.
+      destruct (run_split base Rt i Hb0 Hi) as [low [high [Hl [Hh ->]]]].
+      exists low, j, high. pose proof (axis_offset base size low high Hl) as Ha. cbv zeta in Ha.
+      rewrite Ha. unfold flat. repeat split; try assumption; ring.
+    - intros [low [j [high [Hl [Hj [Hh [-> [-> ->]]]]]]]]. exists (low + base * high). split.
+      + pose proof (run_lt base Rt low high Hl Hh). lia.
+      + apply In_map_range. exists j. split; [exact Hj|].
+        pose proof (axis_offset base size low high Hl) as Ha. cbv zeta in Ha. rewrite Ha.
+        unfold flat. f_equal; [ring|]. f_equal. ring.
+  Qed.
+
+  Theorem broadcast_fw_in_bounds : mov_in_bounds (broadcast_fw sx sy dim size) [tsize sx].
+  Proof.
+    mov_forall broadcast_fw_spec. destruct Hin as [low [j [high [Hl [Hj [Hh [-> [_ ->]]]]]]]].
+    cbn [nth]. rewrite Hsx. apply flat_lt; lia.
+  Qed.
+
+  Lemma broadcast_fw_single : single (broadcast_fw sx sy dim size).
+  Proof. mov_forall broadcast_fw_spec. destruct Hin as [low [j [high [_ [_ [_ [-> _]]]]]]]. reflexivity. Qed.
+
+  (* the writes are strided, not sequential: every output element is written exactly once *)
+  Theorem broadcast_fw_covers : covers (broadcast_fw sx sy dim size) (tsize sy).
+  Proof.
+    apply covers_by_count.
+    - unfold broadcast_fw. rewrite (length_flat_map2 (tsize sx) size).
+      + rewrite Hsx, Hsy. ring.
+      + intros i _. apply length_map_range.
+    - intros d Hd. rewrite Hsy in Hd.
+      destruct (flat_split base size Rt d Hb0 Hs0 Hd) as [low [j [high [Hl [Hj [Hh ->]]]]]].
+      apply in_map_iff. exists (flat base size low j high, (0, flat base 1 low 0 high)).
+      split; [reflexivity|]. apply broadcast_fw_spec. exists low, j, high. auto 10.
+  Qed.
+End Broadcast.
+
+(* ================================================================== prefix sums *)
+Definition sumn (l : list nat) : nat := fold_right Nat.add 0 l.
+
+Lemma sumn_cons x l : sumn (x :: l) = x + sumn l.  Proof. reflexivity. Qed.
+Lemma sumn_app a b : sumn (a ++ b) = sumn a + sumn b.
+Proof. induction a as [|x a IH]; cbn [app]; rewrite ?sumn_cons; [reflexivity|]. rewrite IH. lia. Qed.
+
+(* an index below the total lies in exactly one block of the partition *)
+Lemma prefix_lookup {A} (f : A -> nat) (xs : list A) : forall kk, kk < sumn (map f xs) ->
+  exists k x j, nth_error xs k = Some x /\ j < f x /\ kk = sumn (map f (firstn k xs)) + j.
+Proof.
+  induction xs as [|a xs IH]; intros kk Hk; cbn [map] in Hk; rewrite ?sumn_cons in Hk; [cbn in Hk; lia|].
+  destruct (Nat.lt_ge_cases kk (f a)) as [Hlt|Hge].
+  - exists 0, a, kk. cbn. auto.
+  - destruct (IH (kk - f a) ltac:(lia)) as [k [x [j [Hn [Hj E]]]]].
+    exists (S k), x, j. cbn [nth_error firstn map]. rewrite sumn_cons. repeat split; try assumption. lia.
+Qed.
+
+Lemma sumn_firstn_le {A} (f : A -> nat) (xs : list A) k x :
+  nth_error xs k = Some x -> sumn (map f (firstn k xs)) + f x <= sumn (map f xs).
+Proof.
+  revert k. induction xs as [|a xs IH]; intros k Hn; [destruct k; discriminate|].
+  destruct k as [|k]; cbn [nth_error firstn map] in *; rewrite ?sumn_cons.
+  - injection Hn as ->. cbn. lia.
+  - specialize (IH k Hn). lia.
+Qed.
+
+Lemma nth_map_error {A} (f : A -> nat) (xs : list A) k x dflt :
+  nth_error xs k = Some x -> nth k (map f xs) dflt = f x.
+Proof.
+  revert k. induction xs as [|a xs IH]; intros k Hn; [destruct k; discriminate|].
+  destruct k as [|k]; cbn [nth_error map nth] in *; [injection Hn as ->; reflexivity|apply IH; exact Hn].
+Qed.
+
+(* ================================================================== batch_concat_fw
+   shape_ops::batch_concat: all operands have the same dims; y has batch sum of the batches. *)
+Lemma batch_concat_loop_fst xs : forall k o,
+  map fst (batch_concat_loop xs k o) = seq o (sumn (map tsize xs)).
+Proof.
+  induction xs as [|a xs IH]; intros k o; cbn [batch_concat_loop map]; [reflexivity|].
+  rewrite sumn_cons, map_app, IH, seq_app. f_equal.
+  apply map_seq_off. intros; reflexivity.
+Qed.
+
+Lemma batch_concat_loop_In xs : forall k0 o d k s,
+  In (d, (k, s)) (batch_concat_loop xs k0 o) <->
+  exists i sx, nth_error xs i = Some sx /\ k = k0 + i /\ s < tsize sx /\
+               d = o + sumn (map tsize (firstn i xs)) + s.
+Proof.
+  induction xs as [|a xs IH]; intros k0 o d k s; cbn [batch_concat_loop].
+  - split; [intros []|]. intros [i [sx [Hn _]]]. destruct i; discriminate.
+  - rewrite in_app_iff, In_map_range, IH. split.
+    + intros [[j [Hj E]]|[i [sx [Hn [-> [Hs ->]]]]]].
+      * injection E as -> -> ->. exists 0, a. cbn. repeat split; try assumption; lia.
+      * exists (S i), sx. cbn [nth_error firstn map]. rewrite sumn_cons. repeat split; try assumption; lia.
+    + intros [[|i] [sx [Hn [-> [Hs ->]]]]]; cbn [nth_error firstn map] in *.
+      * injection Hn as ->. left. exists s. split; [exact Hs|]. f_equal; [cbn; lia|]. f_equal. lia.
+      * right. exists i, sx. rewrite sumn_cons. repeat split; try assumption; lia.
+Qed.
+
+(* operand k occupies the element range [sum of the earlier sizes, + its size), in order *)
+Theorem batch_concat_fw_spec xs d k s :
+  In (d, (k, s)) (batch_concat_fw xs) <->
+  exists sx, nth_error xs k = Some sx /\ s < tsize sx /\ d = sumn (map tsize (firstn k xs)) + s.
+Proof.
+  unfold batch_concat_fw. rewrite batch_concat_loop_In. split.
+  - intros [i [sx [Hn [-> [Hs ->]]]]]. exists sx. cbn. auto.
+  - intros [sx [Hn [Hs ->]]]. exists k, sx. cbn. auto.
+Qed.
+
+Theorem batch_concat_fw_sequential_sum xs : sequential (batch_concat_fw xs) (sumn (map tsize xs)).
+Proof. unfold sequential, batch_concat_fw. apply batch_concat_loop_fst. Qed.
+
+(* each operand is read inside its own buffer - no precondition at all *)
+Theorem batch_concat_fw_in_bounds xs : mov_in_bounds (batch_concat_fw xs) (map tsize xs).
+Proof.
+  mov_forall batch_concat_fw_spec. destruct Hin as [sx [Hn [Hs _]]].
+  rewrite (nth_map_error tsize xs k sx 0 Hn). exact Hs.
+Qed.
+
+Lemma same_volume_sizes V xs : Forall (fun sx => tvolume sx = V) xs ->
+  sumn (map tsize xs) = sumn (map tbatch xs) * V.
+Proof.
+  induction 1 as [|a xs Ha _ IH]; cbn [map]; rewrite ?sumn_cons; [reflexivity|].
+  rewrite IH. unfold tsize. rewrite Ha. ring.
+Qed.
+
+Lemma Forall_firstn_of {A} (P : A -> Prop) k (xs : list A) : Forall P xs -> Forall P (firstn k xs).
+Proof.
+  intro H. rewrite <- (firstn_skipn k xs) in H. apply Forall_app in H. tauto.
+Qed.
+
+Section BatchConcat.
+  Variables (xs : list tshape) (sy : tshape) (V : nat).
+  Hypothesis Hvs : Forall (fun sx => tvolume sx = V) xs.
+  Hypothesis Hvy : tvolume sy = V.
+  Hypothesis Hby : tbatch sy = sumn (map tbatch xs).
+  Hypothesis HV : 0 < V.
+
+  Theorem batch_concat_fw_sequential : sequential (batch_concat_fw xs) (tsize sy).
+  Proof.
+    unfold tsize. rewrite Hvy, Hby, <- (same_volume_sizes V xs Hvs). apply batch_concat_fw_sequential_sum.
+  Qed.
+
+  (* whole samples: sample b of operand k is sample (batches of the earlier operands) + b of y *)
+  Theorem batch_concat_fw_spec_samples d k s :
+    In (d, (k, s)) (batch_concat_fw xs) <->
+    exists sx b i, nth_error xs k = Some sx /\ b < tbatch sx /\ i < V /\
+      d = (sumn (map tbatch (firstn k xs)) + b) * V + i /\ s = b * V + i.
+  Proof.
+    rewrite batch_concat_fw_spec. split.
+    - intros [sx [Hn [Hs ->]]].
+      assert (Hv : tvolume sx = V) by (apply (proj1 (Forall_forall _ _) Hvs); apply (nth_error_In _ _ Hn)).
+      unfold tsize in Hs. rewrite Hv in Hs.
+      destruct (sample_split V (tbatch sx) s HV Hs) as [b [i [Hb [Hi ->]]]].
+      exists sx, b, i. rewrite (same_volume_sizes V _ (Forall_firstn_of _ k xs Hvs)).
+      repeat split; try assumption. ring.
+    - intros [sx [b [i [Hn [Hb [Hi [-> ->]]]]]]]. exists sx.
+      assert (Hv : tvolume sx = V) by (apply (proj1 (Forall_forall _ _) Hvs); apply (nth_error_In _ _ Hn)).
+      rewrite (same_volume_sizes V _ (Forall_firstn_of _ k xs Hvs)).
+      split; [exact Hn|]. split; [unfold tsize; rewrite Hv; apply sample_lt; assumption|ring].
+  Qed.
+End BatchConcat.
+
+(* ================================================================== concat_fw
+   shape_ops::concat: all operands agree on every axis but dim, batches compatible (each is the
+   common batch B or 1), y[dim] = sum of the operands' dim sizes, y batch = B.
+   R = product of the axes above dim, per sample. *)
+Definition adim (dim : nat) (s : tshape) : nat := tget s dim.
+
+Lemma bsel_skip3 s X R b : b * (thas_batch s * X * R) = bsel (tbatch s) b * (X * R).
+Proof. unfold thas_batch, bsel. destruct (1 <? tbatch s); ring. Qed.
+
+Lemma concat_loop_length xs : forall k o B base skip R dim,
+  length (concat_loop xs k o B base skip R dim) = B * (R * (base * sumn (map (adim dim) xs))).
+Proof.
+  induction xs as [|a xs IH]; intros k o B base skip R dim; cbn [concat_loop map]; [cbn; ring|].
+  rewrite app_length, IH, sumn_cons.
+  rewrite (length_flat_map2 B (R * (base * tget a dim))).
+  - unfold adim. ring.
+  - intros b _. apply length_flat_map2. intros i _. apply length_map_range.
+Qed.
+
+Lemma concat_loop_In xs : forall k0 o B base skip R dim d k s,
+  In (d, (k, s)) (concat_loop xs k0 o B base skip R dim) <->
+  exists i sx b r j, nth_error xs i = Some sx /\ k = k0 + i /\ b < B /\ r < R /\ j < base * tget sx dim /\
+    d = o + base * sumn (map (adim dim) (firstn i xs)) + (b * R + r) * skip + j /\
+    s = bsel (tbatch sx) b * (base * tget sx dim * R) + r * (base * tget sx dim) + j.
+Proof.
+  induction xs as [|a xs IH]; intros k0 o B base skip R dim d k s; cbn [concat_loop].
+  - split; [intros []|]. intros [i [sx [b [r [j [Hn _]]]]]]. destruct i; discriminate.
+  - rewrite in_app_iff, IH, In_flat_map2. split.
+    + intros [[b [Hb H]]|[i [sx [b [r [j [Hn [-> [Hb [Hr [Hj [-> ->]]]]]]]]]]]].
+      * apply In_flat_map2 in H. destruct H as [r [Hr H]]. apply In_map_range in H.
+        destruct H as [j [Hj E]]. injection E as -> -> ->.
+        exists 0, a, b, r, j. cbn [nth_error firstn map sumn fold_right]. rewrite bsel_skip3.
+        repeat split; try assumption; lia.
+      * exists (S i), sx, b, r, j. cbn [nth_error firstn map]. rewrite sumn_cons. unfold adim.
+        repeat split; try assumption; lia.
+    + intros [[|i] [sx [b [r [j [Hn [-> [Hb [Hr [Hj [-> ->]]]]]]]]]]]; cbn [nth_error firstn map] in *.
+      * injection Hn as ->. left. exists b. split; [exact Hb|]. apply In_flat_map2. exists r.
+        split; [exact Hr|]. apply In_map_range. exists j. split; [exact Hj|]. rewrite bsel_skip3.
+        f_equal; [cbn; lia|]. f_equal. lia.
+      * right. exists i, sx, b, r, j. rewrite sumn_cons. unfold adim.
+        repeat split; try assumption; lia.
+Qed.
+
+Section Concat.
+  Variables (xs : list tshape) (sy : tshape) (dim base ny R B : nat).
+  Hypothesis Hbase : tlower sy dim = base.
+  Hypothesis Hny : tget sy dim = ny.
+  Hypothesis Hsum : ny = sumn (map (adim dim) xs).
+  Hypothesis Hvy : tvolume sy = base * ny * R.
+  Hypothesis Hby : tbatch sy = B.
+  Hypothesis Hxs : Forall (fun sx => tvolume sx = base * tget sx dim * R /\
+                                     (tbatch sx = B \/ tbatch sx = 1)) xs.
+  Hypothesis Hb0 : 0 < base.
+  Hypothesis Hn0 : 0 < ny.
+
+  (* axis offset of operand k inside y: the sum of the earlier operands' sizes along dim *)
+  Definition concat_off (k : nat) : nat := sumn (map (adim dim) (firstn k xs)).
+
+  Lemma concat_repeat : tvolume sy / (base * ny) = R.
+  Proof. rewrite Hvy. rewrite Nat.mul_comm. apply Nat.div_mul. nia. Qed.
+
+  (* y[low, off_k + j, high] of sample b = x_k[low, j, high] of sample b (or of its only sample) *)
+  Theorem concat_fw_spec d k s :
+    In (d, (k, s)) (concat_fw xs sy dim) <->
+    exists sx low j high b, nth_error xs k = Some sx /\
+      low < base /\ j < tget sx dim /\ high < R /\ b < B /\
+      d = b * (base * ny * R) + flat base ny low (concat_off k + j) high /\
+      s = bsel (tbatch sx) b * (base * tget sx dim * R) + flat base (tget sx dim) low j high.
+  Proof.
+    unfold concat_fw. rewrite Hbase, Hny, concat_repeat, Hby, concat_loop_In. unfold concat_off. split.
+    - intros [i [sx [b [r [j [Hn [-> [Hb [Hr [Hj [-> ->]]]]]]]]]]].
+      destruct (run_split base (tget sx dim) j Hb0 Hj) as [low [jj [Hl [Hjj ->]]]].
+      exists sx, low, jj, r, b. cbn [Nat.add]. unfold flat. repeat split; try assumption; ring.
+    - intros [sx [low [j [high [b [Hn [Hl [Hj [Hh [Hb [-> ->]]]]]]]]]]].
+      exists k, sx, b, high, (low + base * j). cbn [Nat.add]. unfold flat.
+      repeat split; try assumption; try ring. apply run_lt; assumption.
+  Qed.
+
+  Lemma concat_operand sx k : nth_error xs k = Some sx ->
+    tvolume sx = base * tget sx dim * R /\ (tbatch sx = B \/ tbatch sx = 1).
+  Proof. intro Hn. apply (proj1 (Forall_forall _ _) Hxs). apply (nth_error_In _ _ Hn). Qed.
+
+  (* operand k is only read inside its own buffer *)
+  Theorem concat_fw_in_bounds : mov_in_bounds (concat_fw xs sy dim) (map tsize xs).
+  Proof.
+    mov_forall concat_fw_spec.
+    destruct Hin as [sx [low [j [high [b [Hn [Hl [Hj [Hh [Hb [_ ->]]]]]]]]]]].
+    rewrite (nth_map_error tsize xs k sx 0 Hn). destruct (concat_operand sx k Hn) as [Hv Hc].
+    unfold tsize. rewrite Hv. apply sample_lt.
+    - apply (bsel_lt _ B b Hb Hc).
+    - apply flat_lt; assumption.
+  Qed.
+
+  (* the operands' blocks interleave in y: every output element is written exactly once *)
+  Theorem concat_fw_covers : covers (concat_fw xs sy dim) (tsize sy).
+  Proof.
+    apply covers_by_count.
+    - unfold concat_fw. rewrite concat_loop_length, Hbase, Hny, concat_repeat, Hby, <- Hsum.
+      unfold tsize. rewrite Hby, Hvy. ring.
+    - intros d Hd. unfold tsize in Hd. rewrite Hby, Hvy in Hd.
+      assert (HV : 0 < base * ny * R) by (destruct (base * ny * R); lia).
+      destruct (sample_split _ B d HV Hd) as [b [r0 [Hb [Hr0 ->]]]].
+      destruct (flat_split base ny R r0 Hb0 Hn0 Hr0) as [low [kk [high [Hl [Hk [Hh ->]]]]]].
+      rewrite Hsum in Hk. destruct (prefix_lookup (adim dim) xs kk Hk) as [k [sx [j [Hn [Hj ->]]]]].
+      apply in_map_iff.
+      exists (b * (base * ny * R) + flat base ny low (concat_off k + j) high,
+              (k, bsel (tbatch sx) b * (base * tget sx dim * R) + flat base (tget sx dim) low j high)).
+      split; [reflexivity|]. apply concat_fw_spec. exists sx, low, j, high, b. auto 12.
+  Qed.
+
+  (* the axis ranges of the operands partition [0, ny) *)
+  Lemma concat_off_range sx k : nth_error xs k = Some sx -> concat_off k + tget sx dim <= ny.
+  Proof. intro Hn. rewrite Hsum. apply (sumn_firstn_le (adim dim) xs k sx Hn). Qed.
+End Concat.
